@@ -436,3 +436,154 @@ func (x *runner) pagesOps(v int, reps int) {
 		x.emit(strings.Join(toks, " "), class)
 	}
 }
+
+// ---- the one-row conveniences: Query.Scan, Query.ScanCAS, Query.MapScanCAS on ONE scripted response
+//
+//   qone <api> <fv> <ndests> <logical response> WIRE <wire>      model-vs-code
+//
+// MapScanCAS is only driven with responses on which Iter.MapScan succeeds and that carry a column `[applied]`:
+// otherwise session.go:1389 `dest["[applied]"].(bool)` panics (proposed finding KF-C04-8, props/C04.findings.json).
+
+func dumpQErr(err error) string {
+	if err == gocql.ErrNotFound {
+		return "notfound"
+	}
+	return dumpErr(err)
+}
+
+func execQone(w []string) string {
+	api, fv, nd := w[1], atoi(w[2]), atoi(w[3])
+	wire := unhex(w[len(w)-1])
+	e, err := pagesGet(fv)
+	if err != nil {
+		return "session-error:" + err.Error()
+	}
+	e.n++
+	sc := e.script
+	stmt := fmt.Sprintf("c04pages %d %d", vh.EnvSeed(), e.n)
+	sc.mu.Lock()
+	sc.stmt, sc.wires, sc.served = stmt, [][]byte{wire}, 0
+	sc.mu.Unlock()
+	var lg []call
+	ds := make([]interface{}, nd)
+	for j := range ds {
+		ds[j] = &rec{log: &lg, idx: j, fv: byte(fv)}
+	}
+	q := e.sess.Query(stmt)
+	switch api {
+	case "scan":
+		err := q.Scan(ds...)
+		return "ok rows:[" + fmtCalls(lg) + "] end:" + dumpQErr(err)
+	case "scancas":
+		applied, err := q.ScanCAS(ds...)
+		return fmt.Sprintf("ok applied:%v rows:[%s] end:%s", applied, fmtCalls(lg), dumpQErr(err))
+	case "mapscancas":
+		m := map[string]interface{}{}
+		applied, err := q.MapScanCAS(m)
+		keys := make([]string, 0, len(m))
+		for k, v := range m {
+			var d string
+			switch x := v.(type) {
+			case []byte:
+				d = vh.Hex(x)
+			case string:
+				d = vh.Hex([]byte(x))
+			default:
+				d = fmt.Sprintf("?%T", v)
+			}
+			keys = append(keys, vh.Hex([]byte(k))+"="+d)
+		}
+		sort.Strings(keys)
+		return fmt.Sprintf("ok applied:%v map:{%s} end:%s", applied, strings.Join(keys, ","), dumpQErr(err))
+	}
+	return "bad-op"
+}
+
+var textIDs = []int{idBlob, idAscii, idText, idVarchar}
+
+func (x *runner) qoneOps(v int, reps int) {
+	g := x.g
+	for i := 0; i < reps; i++ {
+		api := []string{"scan", "scancas", "mapscancas"}[g.r.Intn(3)]
+		class := fmt.Sprintf("qone/%s", api)
+		var b *body
+		nd := 0
+		switch k := g.r.Intn(10); {
+		case k == 0:
+			b = g.errBody(v, errKinds[g.r.Intn(len(errKinds)-1)])
+			nd = g.r.Intn(3)
+			class += "/error"
+		case k == 1:
+			b = g.body(v, []string{"VOID", "KS"}[g.r.Intn(2)], false)
+			class += "/no-rows-result"
+		default:
+			var m *meta
+			switch api {
+			case "scan":
+				m = g.baseMeta(4)
+				for hasTuple0(m) {
+					m = g.baseMeta(4)
+				}
+			case "scancas":
+				m = g.baseMeta(3)
+				for hasTuple0(m) {
+					m = g.baseMeta(3)
+				}
+				if g.r.Intn(5) != 0 {
+					first := colSpec{name: []byte("[applied]"), t: nat(idBoolean)}
+					if m.mode == 'C' {
+						first.ks, first.tb = g.name(), g.name()
+					}
+					m.cols = append([]colSpec{first}, m.cols...)
+				} else {
+					class += "/first-column-any"
+				}
+			case "mapscancas":
+				m = &meta{mode: 'G', ks: g.name(), tb: g.name()}
+				m.cols = append(m.cols, colSpec{name: []byte("[applied]"), t: nat(idBoolean)})
+				for j, n := 0, g.r.Intn(4); j < n; j++ {
+					m.cols = append(m.cols, colSpec{name: []byte(fmt.Sprintf("c%d", j)), t: nat(textIDs[g.r.Intn(4)])})
+				}
+			}
+			rows := g.rowsFor(m, 3)
+			for len(rows) == 0 && g.r.Intn(5) != 0 {
+				rows = g.rowsFor(m, 3)
+			}
+			if api != "scan" {
+				for _, r := range rows {
+					if len(r) > 0 && len(m.cols) > 0 && string(m.cols[0].name) == "[applied]" {
+						switch g.r.Intn(6) {
+						case 0:
+							r[0] = cell{kind: 'z'}
+						case 1:
+							r[0] = cell{kind: 'b', b: []byte{}}
+						default:
+							r[0] = cell{kind: 'b', b: []byte{byte(g.r.Intn(3))}}
+						}
+					}
+				}
+			}
+			b = &body{kind: "RES", rk: "ROWS", m: m, rows: rows}
+			for _, c := range m.cols {
+				nd += width(c.t)
+			}
+			if api == "scancas" && nd > 0 {
+				nd--
+			}
+			if api == "mapscancas" {
+				nd = 0
+			} else if g.r.Intn(8) == 0 {
+				nd += 1 - 2*g.r.Intn(2)
+				if nd < 0 {
+					nd = 0
+				}
+				class += "/wrong-destination-count"
+			}
+			class += fmt.Sprintf("/rows%d", len(rows))
+		}
+		r := g.resp(v, b, true)
+		toks := append([]string{"qone", api, fmt.Sprint(v), fmt.Sprint(nd)}, r.toks()...)
+		toks = append(toks, "WIRE", vh.Hex(r.encFrame()))
+		x.emit(strings.Join(toks, " "), class)
+	}
+}
